@@ -253,9 +253,6 @@ func (sc *SCtx) localVar(name string) (Val, bool) {
 	cands := g.debugVals[name]
 	for i := range cands {
 		c := &cands[i]
-		if c.Addr {
-			continue
-		}
 		if _, ok := g.env[c.V]; !ok {
 			if _, isC := c.V.(*ssa.Const); !isC {
 				continue
@@ -274,7 +271,15 @@ func (sc *SCtx) localVar(name string) (Val, bool) {
 		}
 	}
 	if best != nil {
-		return g.val(sc.state(), best.V), true
+		v := g.val(sc.state(), best.V)
+		if best.Addr {
+			// the binding is the variable's address (a local cell): read it
+			if a := g.addrOf(v); a != nil {
+				return g.load(sc.state(), a, typeAt(a.RootT, a.Path)), true
+			}
+			return Val{}, false
+		}
+		return v, true
 	}
 	return Val{}, false
 }
@@ -735,7 +740,18 @@ func (sc *SCtx) quant(x *EQuant) (Val, error) {
 		}
 		s := scalarSort(ty)
 		if s == nil {
-			return Val{}, fmt.Errorf("quantified variable %s: unsupported type %s", qv.Name, qv.Type)
+			// struct-typed variable: ranges over the key encoding of the struct
+			if _, isStruct := ty.Underlying().(*types.Struct); !isStruct {
+				return Val{}, fmt.Errorf("quantified variable %s: unsupported type %s", qv.Name, qv.Type)
+			}
+			sc.g.nbound++
+			bv := BoundVar(fmt.Sprintf("%s!%d", qv.Name, sc.g.nbound), SInt)
+			bvs = append(bvs, bv)
+			if old, ok := sc.bound[qv.Name]; ok {
+				saved[qv.Name] = old
+			}
+			sc.bound[qv.Name] = sc.g.keyVal(sc.state(), bv, ty)
+			continue
 		}
 		sc.g.nbound++
 		bv := BoundVar(fmt.Sprintf("%s!%d", qv.Name, sc.g.nbound), s)
